@@ -47,7 +47,7 @@ func (e *Exec) symCol(prefix string, cd *ColDef, nullable bool) SQLVal {
 // UNIQUE) are assumed here; the semantic invariant is assumed by the harness.
 func (e *Exec) newSymbolicDB(name string, inMemory bool, nColls, nDocs, nSpare int) *DB {
 	sc := e.schema()
-	db := &DB{id: len(e.dbs), name: name, inMemory: inMemory, maxConns: 8}
+	db := &DB{Store: &Store{}, id: len(e.dbs), name: name, inMemory: inMemory, maxConns: 8}
 	if inMemory {
 		db.maxConns = 1
 	}
